@@ -85,6 +85,15 @@ def run_case(case, ctx):
         ctx.trivial = True
     np.random.seed(case['data_seed'] % (2 ** 32))
     with np.errstate(all='ignore'):
+        if case['data_seed'] % 3 == 0:
+            # as after estimation: the model carries cached clique marginals, and it has already been used once
+            # (a small preview) before the call that is judged
+            model.marginals = model.belief_propagation(model.potentials)
+            model.synthetic_data(rows=int(gen.pick(np.random.RandomState(case['data_seed'] % (2 ** 32)), [5, 10, 37])), method='round')
+            ctx.tag('second_call_on_cached_model')
+        elif case['data_seed'] % 3 == 1:
+            model.marginals = model.belief_propagation(model.potentials)
+            ctx.tag('cached_model')
         synth = model.synthetic_data(rows=case['rows'], method=case['method'])
     df = synth.df
     n = df.shape[0]
